@@ -60,7 +60,7 @@ M = [
     ("c13-failed-write-still-replaces", "C13", "xonsh/history/json.py", "            print(f\"history: failed to write {tmpname!r}: {err}\", file=sys.stderr)\n            return\n", "            print(f\"history: failed to write {tmpname!r}: {err}\", file=sys.stderr)\n"),
     # ---- C09 session conservation (pty layer: terminal ownership)
     ("c09-end-keeps-terminal", "C09", "xonsh/procs/pipelines.py", "        self._end(tee_output=tee_output)\n        self._return_terminal()", "        self._end(tee_output=tee_output)"),
-    ("c09-failed-start-keeps-terminal", "C09", "xonsh/procs/pipelines.py", "                xt.print_exception()\n                self._return_terminal()", "                xt.print_exception()"),
+    # (c09-failed-start-keeps-terminal: dropping _return_terminal() from the failed-start branch of CommandPipeline.__init__ is an equivalent mutant - end() returns the terminal right afterwards)
     ("c09-error-raise-keeps-terminal", "C09", "xonsh/procs/pipelines.py", "                raise subprocess.CalledProcessError(rtn, spec.args, output=self.output)\n            finally:\n                # needed to get a working terminal in interactive mode\n                self._return_terminal()\n            return", "                raise subprocess.CalledProcessError(rtn, spec.args, output=self.output)\n            finally:\n                pass\n            return"),
 ]
 
